@@ -100,7 +100,7 @@ fn def(prop: &str, tier: u8) -> Option<Def> {
         "C14" => Def {
             memcheck: mc,
             parts: vec![("path", fam_path::total(prop, tier))],
-            clauses: vec!["path_repeat", "path_not_dfs", "path_prefix", "path_kind", "path_order", "path_incomplete", "path_count", "unexpected_panic"],
+            clauses: vec!["path_repeat", "path_not_dfs", "path_prefix", "path_kind", "path_order", "path_incomplete", "path_count", "unexpected_panic", "ctrl_explored_in_region"],
             rule: "classic litmus shapes + seeded random litmus programs; the decision path of every iteration is recorded through the iteration hook and checked online: all sequences distinct, prefix-contiguous (depth-first), alternatives taken in listed order, nothing left unexplored, hook calls = iterations; non-trivial = the model ran >= 2 iterations",
             trusted: path_trusted.clone(),
             assumptions: vec!["termination is decided in its bounded form: the run must end below the iteration cap"],
@@ -191,7 +191,7 @@ fn def(prop: &str, tier: u8) -> Option<Def> {
         "C17" => Def {
             memcheck: mc,
             parts: vec![("statics", fam_statics::total(tier))],
-            clauses: vec!["static_semantics", "static_init_not_ordered", "unexpected_panic"],
+            clauses: vec!["static_semantics", "static_init_not_ordered", "unexpected_panic", "iteration_state_leaks"],
             rule: "two loom::thread_local! keys and two loom::lazy_static! values declared in the harness whose init and Drop bump std counters: every 2-thread program with <= 2 static accesses per thread (with, nested with, try_with, lazy deref), all single-thread lists, 4-thread first-access races, + random programs (1-4 threads, <= 3 accesses, SeqCst atomics in between so that first-access races are explored, main joining before or after its own accesses). Per iteration (at the iteration hook): thread-local init count = number of threads touching the key, drops = inits, values private to their thread, try_with on the key under destruction = AccessError, lazy init count = 1 iff touched, one instance address for all threads, dropped by the end of the iteration and re-initialised in the next; a causality panic on the cell written inside init = missing init -> access edge; a third lazy static whose initialiser yields (init count must still be 1: known finding when two first accesses race); programs whose thread-local destructors start with a scheduling point, with a monitor in the joiner (after join(t) every thread-local of t has been dropped). non-trivial = the program touches a static",
             trusted: vec!["counters in std atomics (invisible to loom)", "iteration hook as the end-of-iteration point"],
             assumptions: vec!["a thread-local first initialised from inside another key's destructor is not generated (hostile shape, see DESIGN §8)"],
@@ -217,7 +217,8 @@ fn def(prop: &str, tier: u8) -> Option<Def> {
         },
         "C16" => Def {
             memcheck: mc,
-            parts: vec![("iso", fam_iso::total(tier))],
+            // + the thread-local / lazy-static programs for their per-iteration monitors (what an iteration leaves is its own)
+            parts: vec![("iso", fam_iso::total(tier)), ("statics", fam_statics::total(tier).min(if tier == 0 { 1200 } else { 6000 }))],
             clauses: vec!["differs_after_failed_models", "differs_under_concurrent_models", "iteration_state_leaks", "unexpected_panic", "panic_state_leaked"],
             rule: "each job takes a random litmus program and a random blocking program plus an identity model (ThreadIds of main and two children, an atomic and a channel that must start at their initial state in every iteration); their complete records (per-iteration outcome sequence, execution orders, decision paths, iteration counts, identity lines) are computed in a fresh process, again in the worker process after 2-6 models that failed (lock-order deadlock incl. loom::sync::Arc-shared, data race, Arc + allocation leak, branch limit inside a spin loop, user panic while others are blocked, panic in a payload destructor, leaked messages) and after all earlier jobs of the shard, and again while 3-6 (thorough 3-15) other OS threads run other models with injected yields/sleeps; all three must be identical. non-trivial = one of the two programs runs >= 2 iterations",
             trusted: vec!["record digests (FNV over Debug output)", "iteration hook", "interpreters"],
